@@ -5,7 +5,10 @@
 
    The code modelled is /repo as it is now (with the repairs D21-D27, D34) plus
    findings/D70 (areInLineIfSubTagsValid rejects a sub tag that is not a
-   variable / raw variable / math tag instead of reading it as a VariableTag).
+   variable / raw variable / math tag instead of reading it as a VariableTag) and
+   findings/D71 (an inline if longer than 65535 units is not a tag) and
+   findings/D72 (a '}' that pops the storage of an open loop resets loop_tag to
+   the loop's Parent; without it loop_tag can dangle: heap-use-after-free).
 
    Representation.
    * offsets are [nat] (SizeT; texts shorter than 2^32 units), code units and the
@@ -23,8 +26,10 @@
      of another kind.
    * loop_tag is the list [ps_chain] of the (immutable after the head is parsed)
      fields checkLoopVariable reads, innermost first; LoopTag::Parent is the
-     chain at the time the loop was opened ([l_parent]).  Pointer liveness of
-     that chain is not modelled.
+     chain at the time the loop was opened ([l_parent]).  Pointer liveness is not
+     modelled by an error; instead TparseSafety.v proves that the chain is always
+     exactly the list of the loops whose storage is on the parent_storage stack
+     ([chain_is_open_loops]), i.e. records that are alive.
    * expressions: the tree of QExpression records with Operation, Type, the
      VariableTag of a variable operand (incl. IDLength / Level from
      checkLoopVariable) and Value.Offset / Value.Length of a text operand; a
@@ -484,6 +489,8 @@ Section Parse.
     let offset := i_off i + N.to_nat true_offset in
     bind (csub 80 fo (i_off i)) (fun d =>
       let i1 := mkI (i_off i) (t16 d) 0 (i_tlen i) (i_foff i) (i_flen i) (i_tid i) (i_fid i) in
+      (* findings/D71: a tag longer than the 16-bit fields can describe is dropped *)
+      if N.ltb 65535 (N.of_nat d) then Ok (mkS fo 0 rest init false chain) else
       bind (iif_attrs (S (fo - offset)) offset fo false true_offset i1) (fun r =>
         let i2 := fst r in let repush := snd r in
         (* storage->Drop(1): the tag itself, or (re-pushed) its last sub tag *)
@@ -520,6 +527,9 @@ Section Parse.
           match t with
           | PSVar o _ v subs => Ok (mkS (ps_fo st) 0 rest (init ++ [PSVar o (ps_fo st) v subs]) false (ps_chain st))
           | PIIf i c subs => finalize_iif (ps_fo st) rest init i c subs (ps_chain st)
+          | PLoop l _ =>
+            (* findings/D72: an open loop abandoned by the '}' of a super variable / inline if: loop_tag = tag.Parent *)
+            Ok (mkS (ps_fo st) 0 rest cur1 false (l_parent l))
           | _ => Ok (mkS (ps_fo st) 0 rest cur1 false (ps_chain st))
           end
         end)
@@ -789,3 +799,99 @@ Definition numf_digit (s : list N) : N * N * nat :=
 (* TemplateCore<Char_T, ...>::Parse(content, length, tags_cache) for width selector w
    (0 char, 1 char16_t, 2 char32_t, 3 wchar_t) *)
 Definition parse_model (w : N) (content : list N) : res (list tag) := parse_gen numf_digit w content.
+
+(* ------------------------------------------------------------------ *)
+(* SPECIFICATION of the tree: the offset discipline the renderer relies on.
+   [tstart t, tend t) is the stretch of text render() skips for a tag; a tag list
+   of one array is [wf_tags lo hi]: the tags follow each other inside [lo, hi]
+   (every literal piece render() copies between / after them has a length >= 0)
+   and every tag is well formed itself:
+   * variable: the prefix fits before the name;  math / svar / if: Offset <= EndOffset
+   * svar, loop, if-case: the sub tags lie in order inside the tag (loop: inside
+     [Offset + ContentOffset, EndOffset], in particular ContentOffset <= EndOffset;
+     if: the cases follow each other, each [Offset, EndOffset] holding its sub tags)
+   * inline if: sub tags in order inside [Offset, Offset + Length]; the true / false
+     slices (when set) lie inside the tag; every sub tag lies inside one of the slices
+     ([sub_tags_valid], the very test the parser runs). *)
+Definition tstart (t : tag) : nat :=
+  match t with
+  | PVar v | PRaw v => v_off v - tpp_VariablePrefixLength
+  | PMath o _ _ | PSVar o _ _ _ | PIf o _ _ => o
+  | PIIf i _ _ => i_off i
+  | PLoop l _ => l_off l
+  end.
+Definition tend (t : tag) : nat :=
+  match t with
+  | PVar v | PRaw v => v_off v + N.to_nat (v_len v) + tpp_InLineSuffixLength
+  | PMath _ e _ | PSVar _ e _ _ | PIf _ e _ => e
+  | PIIf i _ _ => i_off i + N.to_nat (i_len i)
+  | PLoop l _ => l_end l + tpp_LoopSuffixLength
+  end.
+Definition iif_slices_in (i : iifrec) : Prop :=
+  (i_toff i = 0%N \/ N.to_nat (i_toff i) + N.to_nat (i_tlen i) <= N.to_nat (i_len i)) /\
+  (i_foff i = 0%N \/ N.to_nat (i_foff i) + N.to_nat (i_flen i) <= N.to_nat (i_len i)).
+
+Fixpoint wf_tag (t : tag) {struct t} : Prop :=
+  let wfl := fix wfl (lo hi : nat) (l : list tag) {struct l} : Prop :=
+               match l with
+               | [] => lo <= hi
+               | x :: r => lo <= tstart x /\ wf_tag x /\ wfl (tend x) hi r
+               end in
+  match t with
+  | PVar v | PRaw v => tpp_VariablePrefixLength <= v_off v
+  | PMath o e _ => o <= e
+  | PSVar o e _ subs => o <= e /\ wfl o e subs
+  | PIIf i _ subs => wfl (i_off i) (i_off i + N.to_nat (i_len i)) subs /\ iif_slices_in i /\ sub_tags_valid i subs = Ok true
+  | PLoop l subs => l_off l + N.to_nat (l_coff l) <= l_end l /\ wfl (l_off l + N.to_nat (l_coff l)) (l_end l) subs
+  | PIf o e cases =>
+    o <= e /\
+    (fix wfc (lo : nat) (cs : list ifcase) {struct cs} : Prop :=
+       match cs with
+       | [] => lo <= e
+       | PCase co ce _ sb :: r => lo <= co /\ wfl co ce sb /\ wfc ce r
+       end) o cases
+  end.
+Fixpoint wf_tags (lo hi : nat) (l : list tag) {struct l} : Prop :=
+  match l with
+  | [] => lo <= hi
+  | x :: r => lo <= tstart x /\ wf_tag x /\ wf_tags (tend x) hi r
+  end.
+Fixpoint wf_cases (e lo : nat) (cs : list ifcase) {struct cs} : Prop :=
+  match cs with
+  | [] => lo <= e
+  | PCase co ce _ sb :: r => lo <= co /\ wf_tags co ce sb /\ wf_cases e ce r
+  end.
+(* the whole tree of a text of [len] units *)
+Definition tree_ok (len : nat) (l : list tag) : Prop := wf_tags 0 len l.
+
+(* the same as a boolean test (used by the correspondence run on every generated text) *)
+Definition slices_inb (i : iifrec) : bool :=
+  (N.eqb (i_toff i) 0 || (N.to_nat (i_toff i) + N.to_nat (i_tlen i) <=? N.to_nat (i_len i))) &&
+  (N.eqb (i_foff i) 0 || (N.to_nat (i_foff i) + N.to_nat (i_flen i) <=? N.to_nat (i_len i))).
+Fixpoint wf_tagb (t : tag) {struct t} : bool :=
+  let wfl := fix wfl (lo hi : nat) (l : list tag) {struct l} : bool :=
+               match l with
+               | [] => lo <=? hi
+               | x :: r => (lo <=? tstart x) && wf_tagb x && wfl (tend x) hi r
+               end in
+  match t with
+  | PVar v | PRaw v => tpp_VariablePrefixLength <=? v_off v
+  | PMath o e _ => o <=? e
+  | PSVar o e _ subs => (o <=? e) && wfl o e subs
+  | PIIf i _ subs => wfl (i_off i) (i_off i + N.to_nat (i_len i)) subs && slices_inb i &&
+                     match sub_tags_valid i subs with Ok true => true | _ => false end
+  | PLoop l subs => (l_off l + N.to_nat (l_coff l) <=? l_end l) && wfl (l_off l + N.to_nat (l_coff l)) (l_end l) subs
+  | PIf o e cases =>
+    (o <=? e) &&
+    (fix wfc (lo : nat) (cs : list ifcase) {struct cs} : bool :=
+       match cs with
+       | [] => lo <=? e
+       | PCase co ce _ sb :: r => (lo <=? co) && wfl co ce sb && wfc ce r
+       end) o cases
+  end.
+Fixpoint wf_tagsb (lo hi : nat) (l : list tag) {struct l} : bool :=
+  match l with
+  | [] => lo <=? hi
+  | x :: r => (lo <=? tstart x) && wf_tagb x && wf_tagsb (tend x) hi r
+  end.
+Definition tree_okb (len : nat) (l : list tag) : bool := wf_tagsb 0 len l.
